@@ -19,6 +19,7 @@ def programs(tier, seed):
     P += families.fam_edge_templates()
     P += families.fam_edge_inputs()
     P += families.fam_equal_values()
+    P += families.fam_zero_overrides()
     if tier == 'thorough':
         P += families.fam_edges_two_nodes(max_edges=2, n_nodes=3)
         for s in range(1, 4):
